@@ -2,6 +2,6 @@ SPECIFICATION Spec
 CONSTANTS
   MaxNodes = 3
   MaxTmpl = 2
-  Emit = FALSE
+  Emit = 1
 INVARIANTS InvStaticNN InvStaticN InvIdentity InvCounts InvFunctional InvFunctionalN InvStepLocal InvEmit
 CHECK_DEADLOCK FALSE
